@@ -158,5 +158,17 @@ func vClientSession(payload []byte) []byte {
 	}
 	obs = append(obs, fs[0].op)
 	obs = append(obs, fs[0].payload...)
+	// a malformed close from the server (reserved code 1005): the client answers 1002, masked
+	bad := append([]byte{0x88, 0x04, 0x03, 0xED}, 'n', payload[0]&0x7f)
+	bconn := &vHalf{in: bad}
+	if _, _, err := wsutil.ReadServerData(bconn); err == nil {
+		return append(obs, "bad-close-accepted"...)
+	}
+	fs, ok = vParse(bconn.out)
+	if !ok || len(fs) != 1 {
+		return append(obs, "close-reply-error"...)
+	}
+	obs = append(obs, fs[0].op)
+	obs = append(obs, fs[0].payload...)
 	return obs
 }
